@@ -353,7 +353,13 @@ def cargo_build(ctx, pkg, release=False, features=None, rustflags=None, workspac
     if extra_env:
         env.update(extra_env)
     t = time.time()
-    rc, out = sh(cmd, cwd=workspace, env=env, timeout=3000)
+    for attempt in range(6):
+        rc, out = sh(cmd, cwd=workspace, env=env, timeout=3000)
+        # another builder's half-written crate makes the whole workspace manifest fail to load: retry shortly
+        if rc != 0 and ("failed to load manifest for workspace member" in out or "failed to read" in out) and pkg not in out.split("Caused by")[0]:
+            time.sleep(10)
+            continue
+        break
     ctx.extra.setdefault("cargo_build_s", {})["%s%s" % (pkg, "-release" if release else "")] = round(time.time() - t, 1)
     if rc != 0:
         tail = [l for l in out.splitlines() if l.strip()][-40:]
